@@ -12,9 +12,11 @@ mcvars == <<vars, pc, fault, step>>
 \* calls that can fail (everything but the in-memory config write)
 Fallible(c) == {i \in 1..Len(Prog(c)) : Prog(c)[i] # "cfgroot"}
 
-Init == /\ \E c \in Configs, u \in Starters : InitWithAs(c, u)
+\* (faults are crossed with the plain start directory and readable options only: the fault-free runs carry the rest)
+Init == /\ \E c \in Configs, u \in Starters, sd \in StartDirs : InitFull(c, u, sd)
         /\ pc = 1 /\ step = "none"
         /\ fault \in {"none"} \cup {Prog(cfg)[i] : i \in Fallible(cfg)}
+        /\ (fault # "none" => (cwd = "elsewhere" /\ ~cfg.garbled))
 
 Do(name, ok) ==
     CASE name = "loadtls"   -> LoadTLS(ok)
@@ -36,7 +38,7 @@ Step ==
 
 Finish ==
     /\ phase = "starting"
-    /\ IF failed THEN Abort ELSE (pc > Len(Prog(cfg)) /\ Serve)
+    /\ IF failed \/ (cfg.garbled /\ pc > Len(Prog(cfg))) THEN Abort ELSE (pc > Len(Prog(cfg)) /\ Serve)
     /\ step' = "none" /\ UNCHANGED <<pc, fault>>
 
 Next == Step \/ Finish
